@@ -9,6 +9,9 @@
 (*                                 the cuts around header and end for long    *)
 (*   Alternative(op)               the same data pushed by another opcode     *)
 (*                                 able to carry it (kind "alt")              *)
+(*   ChooseHuge(field, k, fill)    OP_PUSHDATA4 announcing 2^31 - 1 .. 2^32 - 1 *)
+(*                                 bytes (the length as its 4 bytes), followed *)
+(*                                 by k bytes (kind "huge"): never fits        *)
 (*   AppendRaw(x)                  arbitrary scripts: all byte strings up to  *)
 (*                                 RawFull bytes, strings over RawAlpha up to *)
 (*                                 RawMax bytes (kind "raw")                  *)
@@ -34,6 +37,11 @@ CONSTANTS Lens,        \* data lengths
 \* values for the configuration files (cfg syntax has no ranges)
 LensThorough == 0..80 \cup 253..258 \cup 519..521 \cup 65533..65538 \cup {70000}
 
+\* announced lengths 7fffffff 80000000 80000001 ffffff00 fffffffb fffffffe ffffffff, little-endian
+HugeFields == {<<255, 255, 255, 127>>, <<0, 0, 0, 128>>, <<1, 0, 0, 128>>, <<0, 255, 255, 255>>,
+               <<251, 255, 255, 255>>, <<254, 255, 255, 255>>, <<255, 255, 255, 255>>}
+HugeTails == {0, 1, 3, 10, 300}
+
 VARIABLES kind, d, scr, st, items
 vars == <<kind, d, scr, st, items>>
 
@@ -49,6 +57,12 @@ ChooseData(len, first, fill) ==
   /\ kind' = "enc" /\ d' = Blob(len, first, fill) /\ scr' = EncodePush(d')
   /\ UNCHANGED <<st, items>>
   /\ Emit([k |-> "push", d |-> d', enc |-> scr', op |-> PushOpFor(d')])
+
+ChooseHuge(field, k, fill) ==
+  /\ kind = "root"
+  /\ kind' = "huge" /\ d' = <<>>
+  /\ scr' = RCat(RFromSeq(<<OP_PUSHDATA4>> \o field), Blob(k, fill, fill))
+  /\ UNCHANGED <<st, items>>
 
 Cuts(T) == IF T <= SmallTotal THEN 1..(T - 1)
            ELSE {k \in (1..8) \cup {T \div 2, T - 2, T - 1} : k < T}
@@ -69,7 +83,7 @@ AppendRaw(x) ==
   /\ kind' = "raw" /\ scr' = RCat(scr, ROne(x)) /\ UNCHANGED <<d, st, items>>
 
 Begin ==
-  /\ kind \in {"enc", "trunc", "alt", "raw"} /\ st = Idle
+  /\ kind \in {"enc", "trunc", "alt", "raw", "huge"} /\ st = Idle
   /\ st' = Start(0) /\ UNCHANGED <<kind, d, scr, items>>
 
 Item(r) == [at |-> r.at, op |-> r.op, ok |-> r.ph = "done", data |-> r.data, pc |-> r.pc,
@@ -97,7 +111,8 @@ Choose == kind = "root" /\ \E len \in Lens :
 Cut == kind = "enc" /\ st = Idle /\ \E k \in Cuts(RLen(scr)) : Truncate(k)
 Alt == kind = "enc" /\ st = Idle /\ \E op \in PushOps : Alternative(op)
 Raw == kind \in {"root", "raw"} /\ st = Idle /\ RLen(scr) < RawMax /\ \E x \in NextRaw : AppendRaw(x)
-Next == Choose \/ Cut \/ Alt \/ Raw \/ Begin \/ DecStep \/ NextInstr
+Big == kind = "root" /\ \E field \in HugeFields, k \in HugeTails, fill \in {0, 97} : ChooseHuge(field, k, fill)
+Next == Choose \/ Cut \/ Alt \/ Raw \/ Big \/ Begin \/ DecStep \/ NextInstr
 Spec == Init /\ [][Next]_vars
 
 -----------------------------------------------------------------------------
@@ -118,6 +133,10 @@ InvEnc == (kind = "enc" /\ Stopped) =>
   /\ items[1].ok /\ items[1].push /\ items[1].val = d /\ items[1].pc = RLen(scr) /\ items[1].minok
   /\ items[1].op = PushOpFor(d)
 InvTrunc == (kind = "trunc" /\ Stopped) => st.ph = "bad" /\ Len(items) = 1 /\ ~items[1].ok
+\* an announced length of 2^31 - 1 or more never fits: malformed, the cursor stays inside the instruction
+InvHuge == (kind = "huge" /\ Stopped) =>
+  /\ st.ph = "bad" /\ st.why = "data truncated" /\ Len(items) = 1 /\ ~items[1].ok /\ items[1].at = 0
+  /\ st.pc = 5 /\ ~WellFormed(scr)
 InvAlt == (kind = "alt" /\ Stopped) =>
   /\ st.ph = "end" /\ Len(items) = 1
   /\ items[1].ok /\ items[1].push /\ items[1].val = d /\ items[1].pc = RLen(scr)
